@@ -58,3 +58,10 @@ GROUPS += [
           functions=["mps_set_bound", "ILLraw_set_lowerBound", "ILLraw_set_upperBound", "ILLraw_set_fixedBound", "ILLraw_set_unbound", "ILLraw_set_binaryBound", "ILLraw_init_bounds", "ILLraw_fill_in_bounds"],
           props=["C10", "C17"], assumed=["rawlp/mps_bounds: static mps_set_bound called through goto-cc --export-file-local-symbols; ILLmps_warn is a counter"]),
 ]
+
+GROUPS += [
+    Group("rawlp/ranges", "rawlp_ranges.c", tus=["rawlp_mpq.c", "eg_lpnum.c"], model=MODEL, defines=["QSV_GMP_EXACT", "QSV_NARROW", "QSV_INF=1024"], dfcc=False, export_static=True, unwind=6, kind="bounded", namebuf=512, timeout=1200,
+          bound="3 raw rows with arbitrary senses N/G/L/E, at most 2 RANGES entries on distinct rows, integer values in -3..3; exact pair arithmetic (GMP model EXACT+NARROW); loops completely unwound",
+          flags=["--no-malloc-may-fail"], must_fail=["reach_end", "reach_negative_range_on_E_row", "reach_range_on_N_row"], functions=["transferRanges"],
+          props=["C10", "C11", "C17"], assumed=["rawlp/ranges: static transferRanges called through goto-cc --export-file-local-symbols; ILLdata_error is a counter; at most one RANGES entry per row (enforced by mps.c add_ranges, not decided here)"]),
+]
